@@ -577,7 +577,7 @@ func firstLine(s string) string {
 }
 
 func main() {
-	mon.ChildMain(map[string]mon.ChildFunc{"burst": burstChild})
+	mon.ChildMain(map[string]mon.ChildFunc{"burst": burstChild, "seq": seqChild})
 	slog.SetDefault(slog.New(capHandler{mu: &logMu, lines: &logLines}))
 	r := mon.Start("C26")
 	defer r.Finish()
@@ -586,15 +586,16 @@ func main() {
 	r.Assume("JWS-shaped = exactly three dot-separated segments of [A-Za-z0-9_-], first two non-empty, third possibly empty (the documented rule); detached-payload / padded / whitespace-wrapped variants are gray: only the leak and fixed-body clauses are checked for them")
 	r.Assume("oversized = more than 4096 characters (runes); a 429 answer is legal for any allowlisted caller and must not invoke the resolver")
 	r.Assume("\"the credential appears\" = the full credential occurs verbatim, or JSON/Go-quoted, URL-escaped, base64 or hex encoded, in any response header, the response body, or any slog/std-log record emitted while the request was served; the SHA-256 digest is allowed")
+	r.Assume("idle-gap arm: idle time is injected with the verif hook VerifC26IntrospectIdle (the limiter's stored window start is moved back; the limiter only ever compares time.Now() with it), cross-checked by a few real-sleep trials; after an idle gap of >= 1 window the burst must stay within `rate` per caller (no boundary tolerance: the first request opens the window); across arbitrary gaps the bound rate*(floor(L/window)+2) per simulated interval L holds for any fixed-window limiter")
 	r.Assume("rate clause: wall clock is used only to decide whether a burst trial is applicable (whole burst < 0.9 s on the monotonic clock, fresh server => one limiter window); slower trials are inconclusive and repeated")
 	r.Require("403:unauthenticated", "403:non-member", "403:no-authenticator", "404:jws-not-resolved", "404:oversized-not-resolved",
 		"404:resolver-not-found", "200:resolved", "503:resolver-unavailable", "disabled:never-enabled", "disabled:invalid-config",
-		"401:authenticator-rejected:no-body-read", "rate:burst-in-one-window", "rate:some-429", "log:digest-seen", "log:lines-captured")
+		"401:authenticator-rejected:no-body-read", "rate:burst-in-one-window", "rate:some-429", "rate:idle-gap>=2-windows:burst-in-one-window", "rate:idle-gap-1-to-2-windows:burst-in-one-window", "rate:idle-gap:fractional", "rate:idle-gap:real-sleep", "log:digest-seen", "log:lines-captured")
 
 	fixed := &fixedBodies{seen: map[int]string{}}
 	var fixed404Disabled = &fixedBodies{seen: map[int]string{}}
 
-	nWorlds := r.N(60, 1600)
+	nWorlds := r.N(60, 2600)
 	perWorld := 250
 	for wi := 0; wi < nWorlds; wi++ {
 		rng := r.Rand(1, uint64(wi))
@@ -802,6 +803,267 @@ func main() {
 	r.Set("fixed_bodies", map[string]any{"403": fixed.seen[403], "404": fixed.seen[404], "404_disabled": fixed404Disabled.seen[404]})
 
 	rateArm(r)
+	idleArm(r)
+}
+
+// ---------------------------------------------------------------------------
+// idle-gap arm: sequences of (idle for g windows; burst) against ONE server.
+// Idle time passes through the verif hook VerifC26IntrospectIdle (the limiter's
+// stored window start is moved back: exactly "g windows elapsed without a
+// request"), or, in a few trials, through a real sleep.  Every admission gets a
+// simulated timestamp (monotonic real time + total idle injected so far).
+
+type seqIn struct {
+	Seed  int64 `json:"seed"`
+	Trial int   `json:"trial"`
+	Real  bool  `json:"real"`
+}
+
+type seqAdm struct {
+	Caller int   `json:"c"`
+	Call   int64 `json:"call"` // simulated ns
+	Ret    int64 `json:"ret"`
+	Step   int   `json:"step"`
+}
+
+type seqStep struct {
+	GapWindows float64 `json:"gap_windows"`
+	RealSpanMs float64 `json:"burst_real_ms"`
+	Requests   int     `json:"requests"`
+	Admitted   []int   `json:"admitted_per_caller"`
+	Resolved   []int   `json:"resolved_per_caller"`
+}
+
+type seqOut struct {
+	Rate, Eff, Callers, Workers int
+	Real                        bool
+	Steps                       []seqStep
+	Adm                         []seqAdm
+}
+
+var gapChoices = []float64{0, 0.25, 0.5, 0.9, 1, 1.1, 1.5, 2, 3, 5, 7.25, 10, 33.3, 60, 100, 3600}
+
+func seqChild(in []byte) []byte {
+	slog.SetDefault(slog.New(slog.NewTextHandler(io.Discard, nil)))
+	var si seqIn
+	if err := json.Unmarshal(in, &si); err != nil {
+		panic(err)
+	}
+	rng := rand.New(rand.NewPCG(uint64(si.Seed)*0x9e3779b97f4a7c15+0x26c, uint64(si.Trial)))
+	window := time.Second
+	rates := []int{2, 1, 5, 3, 0, 10}
+	out := seqOut{Rate: rates[si.Trial%len(rates)], Real: si.Real}
+	out.Eff = out.Rate
+	if out.Eff == 0 {
+		out.Eff = 20
+	}
+	out.Callers = 1 + rng.IntN(3)
+	out.Workers = 1 + rng.IntN(8)
+	members := make([]string, out.Callers)
+	for i := range members {
+		members[i] = fmt.Sprintf("proxy-%d-%s", i, rstr(rng, b64url, 5))
+	}
+	s, err := newServer("rate-idle", "", true, "valid", members, out.Rate)
+	if err != nil {
+		panic(err)
+	}
+	warm := httptest.NewRequest(http.MethodPost, vgirpc.IntrospectEndpoint, strings.NewReader(`{"token":"x"}`))
+	warm.Header.Set("X-T-Authed", "1")
+	warm.Header.Set("X-T-Principal", "nobody")
+	s.h.ServeHTTP(httptest.NewRecorder(), warm)
+
+	nSteps := 3 + rng.IntN(4)
+	if si.Real {
+		nSteps = 2
+	}
+	t0 := time.Now()
+	var shift time.Duration
+	for st := 0; st < nSteps; st++ {
+		g := gapChoices[rng.IntN(len(gapChoices))]
+		if st == 0 && rng.IntN(2) == 0 {
+			g = 0 // burst right after construction
+		}
+		if st > 0 && rng.IntN(3) == 0 {
+			g = float64(2 + rng.IntN(99)) // whole windows, the catch-up shape
+		}
+		if si.Real {
+			g = 0
+			if st == 1 {
+				g = 3.3
+			}
+		}
+		d := time.Duration(g * float64(window))
+		if si.Real {
+			time.Sleep(d)
+		} else if d > 0 {
+			if !vgirpc.VerifC26IntrospectIdle(s.h, d) {
+				panic("VerifC26IntrospectIdle: introspection not enabled")
+			}
+			shift += d
+		}
+		type reqT struct {
+			caller int
+			cred   string
+		}
+		var reqs []reqT
+		for c := 0; c < out.Callers; c++ {
+			for i := 0; i < 3*out.Eff; i++ {
+				reqs = append(reqs, reqT{c, marker(rng)})
+			}
+		}
+		rng.Shuffle(len(reqs), func(i, j int) { reqs[i], reqs[j] = reqs[j], reqs[i] })
+		prepared := make([]*http.Request, len(reqs))
+		for i, q := range reqs {
+			req := httptest.NewRequest(http.MethodPost, vgirpc.IntrospectEndpoint, bytes.NewReader(jsonBody(q.cred)))
+			req.Header.Set("Content-Type", "application/json")
+			req.Header.Set("X-T-Authed", "1")
+			req.Header.Set("X-T-Principal", members[q.caller])
+			req.RemoteAddr = fmt.Sprintf("198.51.100.%d:%d", rng.IntN(250), 1024+rng.IntN(60000))
+			prepared[i] = req
+		}
+		statuses := make([]int, len(reqs))
+		calls := make([]int64, len(reqs))
+		rets := make([]int64, len(reqs))
+		rm := s.resolver.mark()
+		var wg sync.WaitGroup
+		var next atomic.Int64
+		start := time.Now()
+		for w := 0; w < out.Workers; w++ {
+			wg.Add(1)
+			go func() {
+				defer wg.Done()
+				for {
+					i := int(next.Add(1)) - 1
+					if i >= len(prepared) {
+						return
+					}
+					rec := httptest.NewRecorder()
+					calls[i] = int64(time.Since(t0) + shift)
+					s.h.ServeHTTP(rec, prepared[i])
+					rets[i] = int64(time.Since(t0) + shift)
+					statuses[i] = rec.Code
+				}
+			}()
+		}
+		wg.Wait()
+		span := time.Since(start)
+		step := seqStep{GapWindows: g, RealSpanMs: span.Seconds() * 1000, Requests: len(reqs), Admitted: make([]int, out.Callers), Resolved: make([]int, out.Callers)}
+		credCaller := map[string]int{}
+		for i, q := range reqs {
+			credCaller[q.cred] = q.caller
+			if statuses[i] != http.StatusTooManyRequests {
+				step.Admitted[q.caller]++
+				out.Adm = append(out.Adm, seqAdm{Caller: q.caller, Call: calls[i], Ret: rets[i], Step: st})
+			}
+		}
+		for _, c := range s.resolver.since(rm) {
+			if k, ok := credCaller[c]; ok {
+				step.Resolved[k]++
+			}
+		}
+		out.Steps = append(out.Steps, step)
+	}
+	b, _ := json.Marshal(out)
+	return b
+}
+
+func idleArm(r *mon.Run) {
+	nHook, nReal := r.N(16, 600), r.N(1, 3)
+	var inputs [][]byte
+	for t := 0; t < nHook+nReal; t++ {
+		b, _ := json.Marshal(seqIn{Seed: r.Seed(), Trial: t, Real: t >= nHook})
+		inputs = append(inputs, b)
+	}
+	outs, err := mon.RunIsolated("seq", inputs, mon.ChildOpt{Timeout: 10 * time.Minute})
+	if err != nil {
+		r.Fatal("idle-gap arm: %v", err)
+	}
+	window := int64(time.Second)
+	skipped := 0
+	for t, o := range outs {
+		switch {
+		case o.TimedOut:
+			r.Inconclusive(fmt.Sprintf("idle-gap trial %d: child watchdog fired", t))
+			continue
+		case o.Crashed:
+			r.Violation("rate:process-died-during-idle-gap-sequence", firstLine(o.Detail), map[string]any{"trial": t, "seed": r.Seed(), "stderr": o.Detail})
+			continue
+		case o.Panicked:
+			r.Fatal("idle-gap trial %d: %s", t, firstLine(o.Detail))
+		}
+		var q seqOut
+		if err := json.Unmarshal(o.Output, &q); err != nil {
+			r.Fatal("idle-gap trial %d: bad child output: %v", t, err)
+		}
+		sig := fmt.Sprintf("idle|%d|c%d|w%d", q.Rate, q.Callers, q.Workers)
+		for si, st := range q.Steps {
+			sig += fmt.Sprintf("|%.2f:%v", st.GapWindows, st.Admitted)
+			r.Count("idle.requests", int64(st.Requests))
+			// Oracle A: after an idle gap of >= 1 window (or on the untouched fresh
+			// server) the first request opens a new window; a burst shorter than
+			// 0.9 window lies inside it: at most `rate` admissions per caller.
+			anchored := st.GapWindows >= 1 || si == 0
+			if !anchored {
+				r.Class("rate:idle-gap:fractional")
+				continue
+			}
+			if st.RealSpanMs >= 900 {
+				skipped++
+				continue
+			}
+			switch {
+			case q.Real && si > 0:
+				r.Class("rate:idle-gap:real-sleep")
+			case st.GapWindows >= 2:
+				r.Class("rate:idle-gap>=2-windows:burst-in-one-window")
+			case st.GapWindows >= 1:
+				r.Class("rate:idle-gap-1-to-2-windows:burst-in-one-window")
+			}
+			for k := 0; k < q.Callers; k++ {
+				if st.Admitted[k] > q.Eff || st.Resolved[k] > q.Eff {
+					how := "hook"
+					if q.Real {
+						how = "real-sleep"
+					}
+					r.Violation("rate:idle-gap:more-than-configured-admissions-in-one-real-window",
+						fmt.Sprintf("after %.2f idle windows (%s) caller %d got %d non-429 answers (%d resolver invocations) in a %.0f ms burst; limit %d per window", st.GapWindows, how, k, st.Admitted[k], st.Resolved[k], st.RealSpanMs, q.Eff),
+						map[string]any{"trial": t, "seed": r.Seed(), "step": si, "result": map[string]any{"rate": q.Rate, "effective_rate": q.Eff, "callers": q.Callers, "workers": q.Workers, "real_sleep": q.Real, "steps": q.Steps}})
+				}
+			}
+		}
+		r.Case(sig)
+		// Oracle B (any gaps, any timing): a fixed-window limiter whose windows are at
+		// least one window long admits, per caller, at most rate*(floor(L/window)+2)
+		// requests in any simulated-time interval of length L.
+		per := map[int][]seqAdm{}
+		for _, a := range q.Adm {
+			per[a.Caller] = append(per[a.Caller], a)
+		}
+		for c, as := range per {
+			sort.Slice(as, func(i, j int) bool { return as[i].Call < as[j].Call })
+			bad := false
+			for i := 0; i < len(as) && !bad; i++ {
+				maxRet := as[i].Ret
+				for j := i; j < len(as); j++ {
+					if as[j].Ret > maxRet {
+						maxRet = as[j].Ret
+					}
+					L := maxRet - as[i].Call
+					if n, bound := j-i+1, q.Eff*(int(L/window)+2); n > bound {
+						r.Violation("rate:idle-gap:admissions-exceed-window-bound",
+							fmt.Sprintf("caller %d: %d admissions inside %.3f simulated seconds; a limit of %d per window allows at most %d", c, n, float64(L)/1e9, q.Eff, bound),
+							map[string]any{"trial": t, "seed": r.Seed(), "rate": q.Rate, "effective_rate": q.Eff, "steps": q.Steps})
+						bad = true
+						break
+					}
+				}
+			}
+		}
+		if t%60 == 0 {
+			r.Sample(map[string]any{"idle_gap_trial": t, "rate": q.Eff, "callers": q.Callers, "real_sleep": q.Real, "steps": q.Steps})
+		}
+	}
+	r.Set("idle_gap_trials", map[string]int{"hook": nHook, "real_sleep": nReal, "anchored_bursts_slower_than_0.9_window(skipped)": skipped})
 }
 
 // ---------------------------------------------------------------------------
